@@ -13,8 +13,21 @@ convert   point_to_dipole / dipole_to_point / rotation round trips and the
           three coordinate formats of `Dipole`, no grid involved.
 magnetic  magnetic dipoles: loop geometry (closed, planar, square, vector
           area = length * direction) and its source field (zero moment).
-magpoint  magnetic point source (dispatch only): finite, zero net moment,
-          linear in strength.
+magpoint  magnetic point source: finite, zero net moment, linear in
+          strength, no frequency factor (f>0 = Laplace = frequency-free
+          vector), magnetic moment 1/2 sum r x v = -direction.
+reuse     one source object asked repeatedly (frequencies / domains / grids),
+          directly or through copy() / to_dict-from_dict / pickle made at
+          that moment, after reading lazily cached attributes: every answer
+          equals that of a freshly built source.
+
+Location oracles (what sum + support cannot decide): for wires and loops the
+transverse first moments sum(f_c * node_a) = integral r_a dr_c along the
+path (a != c; for a loop the vector area, i.e. length x direction of the
+magnetic dipole); for point sources the centre of weight of every component
+= the source position; the reversed wire gives the negated vector and a wire
+A->B->A the zero vector, edge by edge.  The returned Field's documented
+attributes (frequency, sval, dtype, electric) are compared with closed forms.
 
 A re-normalisation warning ("SHOULD NEVER HAPPEN" in the code's own words)
 is a violation: it means the raw distribution did not conserve the moment
@@ -54,7 +67,18 @@ RULE = ("Grids with 2..7 cells per direction (uniform / stretched / random "
         "case if it is on a node plane or has an oblique direction; a "
         "conversion case if the dipole is oblique, vertical or has negative "
         "components. Distinct by the full symbolic electrode description, "
-        "grid shape and seeds.")
+        "grid shape and seeds. Added in round 4: real strengths also as "
+        "Python int (one in four); every second wire case relies on the "
+        "documented defaults (strength omitted when it is 1, point-format "
+        "dipoles rescaled to the default length 1 m where that fits, raw "
+        "two-electrode input as nested list); one wire in six with >=3 "
+        "electrodes revisits an earlier electrode (back-tracking, closed "
+        "wires, A->B->A); conversion functions with angles in radians (one "
+        "in three) and `point` as tuple / list / ndarray; "
+        "point_to_square_loop called directly with a tuple; reuse: requests "
+        "through copy / to_dict+from_dict / pickle (optionally adopted for "
+        "the later requests), after reading repr / length / azimuth / "
+        "center, and magnetic dipoles given by two end points.")
 ASSUMPTIONS = [
     "numpy float arithmetic and math.sin/cos; scipy.constants.mu_0",
     "the documented rounding of nodes and electrodes to 1e-9 m is accepted: "
@@ -65,6 +89,28 @@ ASSUMPTIONS = [
     "user-supplied (unrounded) electrodes and shares no code with "
     "emg3d.fields._dipole_vector",
     "Laplace parameter s = 2 pi i f (f>0) or |f| (f<0)",
+    "first-moment oracles: edge positions = cell centre along the edge, "
+    "node on the transverse axes, all relative to the grid centre; wires: "
+    "transverse moments only, tolerance 2e-9 m*(segments*half extent + "
+    "length) + 64 eps max|coord| (length + half extent) (each segment's "
+    "electrodes and the nodes are rounded to 1e-9 m, widths are not); point "
+    "sources: 256 eps max|coord| + 64 eps sum|f||r|/|sum f|, along the "
+    "component's own axis only between the first and the last cell centre "
+    "(the outer half cells are extrapolated below / clamped above by the "
+    "pinned code; nothing is demanded there)",
+    "magnetic point: moment oracle only for points between the first and "
+    "last cell centre on every axis; sign convention derived from the "
+    "class docstrings (moment I^m ds without i omega mu; same orientation "
+    "as the TxMagneticDipole loop after its factor -s mu0)",
+    "reversal / there-and-back: edge-wise, 1e-9 m*length + 64 eps "
+    "max|coord| length/min width; reversal on every second wire case "
+    "(parity of the grid seed) for the time budget",
+    "'same electrodes/points' comparisons allow the documented 1e-9 m",
+    "copy(), to_dict()/from_dict() and pickle are taken as faithful "
+    "round trips of a source (documented: 'all information to re-create')",
+    "point-format dipoles with an electrode within 1e-6 m of the boundary "
+    "are given in the two-electrode format (centre +- L/2 u may round to "
+    "the outside, which emg3d rejects as documented)",
 ]
 SHARDS = {'quick': 1, 'thorough': 16}
 
@@ -147,6 +193,9 @@ def _common(draw):
         'shift': draw(st.sampled_from([0, 0, 0, 0, 1, 2])),
         'freq': fr,
         'strength': _strength(draw, fr['mode'] == 'freq'),
+        # Python type of a real strength: float, or int as in the example
+        # of the get_source_field docstring (strength=100)
+        'stype': draw(st.sampled_from(['float', 'float', 'float', 'int'])),
     }
 
 
@@ -174,6 +223,15 @@ def wire_strategy(draw):
     else:
         spec['form'] = draw(st.sampled_from(['wire', 'wire', 'raw_wire',
                                              'raw_list', 'method']))
+    # rely on the documented defaults (strength=1.0, length=1.0) instead of
+    # passing them, where the drawn values allow it
+    spec['defaults'] = draw(st.booleans())
+    # electrode i := electrode k (k < i-1): back-tracking / closed wires
+    if nel >= 3 and draw(st.integers(0, 5)) == 0:
+        i = draw(st.integers(2, nel-1))
+        spec['revisit'] = [i, draw(st.integers(0, i-2))]
+    else:
+        spec['revisit'] = None
     return spec
 
 
@@ -199,6 +257,11 @@ def convert_strategy(draw):
         'dkind': [draw(st.sampled_from(['zero', 'pos', 'neg', 'pos', 'neg',
                                         'negzero'])) for _ in range(3)],
         'dmag': [draw(gen.lgfloat(1e-3, 1e3)) for _ in range(3)],
+        # angles of the conversion functions in degrees / radians; `point`
+        # argument as ndarray or as the documented tuple (or a list)
+        'deg': draw(st.sampled_from([True, True, False])),
+        'container': draw(st.sampled_from(['ndarray', 'tuple', 'tuple',
+                                           'list'])),
     }
     return spec
 
@@ -278,6 +341,7 @@ def expand_electrodes(spec, nodes):
     grid box; consecutive duplicates removed; at least two electrodes."""
     scale = spec['grid']['scale']
     modes = [[list(m) for m in e] for e in spec['electrodes']]
+    revisit = spec.get('revisit')
     plant = spec.get('plant')
     if plant:
         i, a, which = plant
@@ -290,6 +354,8 @@ def expand_electrodes(spec, nodes):
         prev = pts[-1] if pts else [float(nodes[a][0]) for a in range(3)]
         pts.append([expand_axis(e[a], nodes[a], prev[a], scale)
                     for a in range(3)])
+        if revisit and revisit[0] == i:
+            pts[i] = list(pts[revisit[1]])
     out = [pts[0]]
     for p in pts[1:]:
         if np.linalg.norm(np.subtract(p, out[-1])) > 1e-6:
@@ -333,14 +399,20 @@ def freq_arg(fr):
 
 def strength_of(spec):
     re, im = spec['strength']
-    return complex(re, im) if im != 0.0 else float(re)
+    if im != 0.0:
+        return complex(re, im)
+    if spec.get('stype', 'float') == 'int':
+        v = int(round(re))
+        return v if v != 0 else (1 if re > 0 else -1)
+    return float(re)
 
 
 def strength_kind(spec):
-    re, im = spec['strength']
-    if im != 0.0:
+    v = strength_of(spec)
+    if isinstance(v, complex):
         return 'complex'
-    return 'unit' if re == 1.0 else ('real+' if re > 0 else 'real-')
+    k = 'unit' if v == 1 else ('real+' if v > 0 else 'real-')
+    return k + ('_int' if isinstance(v, int) else '')
 
 
 def slab_intervals(nodes, p0, p1, tau):
@@ -734,6 +806,20 @@ def case_wire(spec, rec):
         form = 'wire2'
     strength = strength_of(spec)
     freq = freq_arg(spec['freq'])
+    # documented defaults strength=1.0 / length=1.0 left to emg3d
+    defaults = bool(spec.get('defaults', False))
+    skw = {} if (defaults and strength == 1.0) else {'strength': strength}
+    deflen = False
+    if defaults and nel == 2 and form in ('point5', 'raw_point5'):
+        # the same dipole (centre, direction) with the default length 1 m,
+        # if that stays at least 2e-6 m inside the grid
+        c0 = 0.5*(pts[0] + pts[1])
+        u0 = (pts[1] - pts[0])/np.linalg.norm(pts[1] - pts[0])
+        cand = np.array([c0 - 0.5*u0, c0 + 0.5*u0])
+        if all(nodes[a][0] + 2e-6 <= cand[:, a].min() and
+               cand[:, a].max() <= nodes[a][-1] - 2e-6 for a in range(3)):
+            pts, deflen = cand, True
+    lkw = {}            # filled below: {'length': dl} unless default
     nominal = pts[-1] - pts[0]
     seglen = np.linalg.norm(np.diff(pts, axis=0), axis=1)
     L = float(seglen.sum())
@@ -755,19 +841,23 @@ def case_wire(spec, rec):
 
     # ---- construct the source in the drawn form --------------------------
     az, el, dl = angles_of(nominal)
+    if deflen:
+        dl = 1.0
+    else:
+        lkw = {'length': dl}
     centre = 0.5*(pts[0] + pts[1])
     coo5 = (float(centre[0]), float(centre[1]), float(centre[2]), az, el)
     flat = pts.ravel('F')
     rel = float(dl/max(M, 1e-300)) if nel == 2 else None
 
-    def make(strength):
+    def make():
         if form in ('pair', 'method') and nel == 2:
-            return emg3d.TxElectricDipole(pts.copy(), strength=strength)
+            return emg3d.TxElectricDipole(pts.copy(), **skw)
         if form == 'flat':
-            return emg3d.TxElectricDipole(tuple(flat), strength=strength)
+            return emg3d.TxElectricDipole(tuple(flat), **skw)
         if form == 'point5':
-            return emg3d.TxElectricDipole(coo5, strength=strength, length=dl)
-        return emg3d.TxElectricWire(pts.copy(), strength=strength)
+            return emg3d.TxElectricDipole(coo5, **skw, **lkw)
+        return emg3d.TxElectricWire(pts.copy(), **skw)
 
     is_dipole_cls = nel == 2 and form in ('pair', 'flat', 'method',
                                           'raw_pair', 'raw_flat')
@@ -788,14 +878,15 @@ def case_wire(spec, rec):
             raise
 
     if form.startswith('raw'):
-        kw = {'strength': strength}
+        kw = dict(skw)
         if form == 'raw_pair':
-            arg = pts.copy()
+            # ndarray, or the nested list of the docstring example
+            arg = pts.tolist() if defaults else pts.copy()
         elif form == 'raw_flat':
             arg = tuple(float(x) for x in flat)
         elif form == 'raw_point5':
             arg = coo5
-            kw['length'] = dl
+            kw.update(lkw)
         elif form == 'raw_list':
             arg = pts.tolist()
         else:
@@ -804,7 +895,7 @@ def case_wire(spec, rec):
             lambda: emg3d.get_source_field(grid, arg, freq, **kw)))
         src = None
     else:
-        src = identical_guard(lambda: make(strength))
+        src = identical_guard(make)
         if form == 'method':
             sres = Caught(lambda: src.get_field(grid, freq))
         else:
@@ -846,15 +937,19 @@ def case_wire(spec, rec):
 
     # ---- orientation: the reversed wire gives the negated vector -----------
     # (the distribution is a line integral along the path; edge-wise)
-    rpts = np.array(vsrc.points, dtype=float)[::-1].copy()
-    rres = Caught(lambda: emg3d.get_source_field(
-        grid, emg3d.TxElectricWire(rpts, strength=1.0), None))
+    # (budget: on every second case, selected by the parity of the grid seed)
+    do_rev = spec['grid']['seed'] % 2 == 0
     va = np.asarray(vres.value.field)
-    vb = np.asarray(rres.value.field)
     hmin = min(float(np.min(h)) for h in grid.h)
     Mn = max(M, max(float(np.max(np.abs(nd))) for nd in nodes))
     rtol = 1e-9*L + 64*EPS*Mn*L/hmin
-    if rres.normalizing or not np.all(np.abs(va + vb) <= rtol):
+    if do_rev:
+        rpts = np.array(vsrc.points, dtype=float)[::-1].copy()
+        rres = Caught(lambda: emg3d.get_source_field(
+            grid, emg3d.TxElectricWire(rpts, strength=1.0), None))
+        vb = np.asarray(rres.value.field)
+    if do_rev and (rres.normalizing or
+                   not np.all(np.abs(va + vb) <= rtol)):
         bad = np.abs(va + vb)
         i = int(np.argmax(np.where(np.isnan(bad), np.inf, bad)))
         raise Violation(
@@ -866,9 +961,39 @@ def case_wire(spec, rec):
              'hy': grid.h[1].tolist(), 'hz': grid.h[2].tolist(),
              'origin': list(map(float, grid.origin))})
 
+    # ---- there and back again: nothing is left on any edge ------------------
+    closed = bool(nel >= 3 and np.all(pts[0] == pts[-1]))
+    there_back = bool(nel == 3 and closed)
+    if there_back and not np.all(np.abs(va) <= rtol):
+        i = int(np.argmax(np.abs(va)))
+        raise Violation(
+            f"wire:there_and_back_not_zero:{feature}",
+            f"wire A->B->A leaves {va[i]!r} on entry {i} (tol {rtol:.3e}); "
+            f"electrodes={pts.tolist()}",
+            {'electrodes': pts.tolist(), 'hx': grid.h[0].tolist(),
+             'hy': grid.h[1].tolist(), 'hz': grid.h[2].tolist(),
+             'origin': list(map(float, grid.origin))})
+
     # ---- classification ---------------------------------------------------
     grid_classes(spec, rec)
     rec.cls(f"form={form}", f"electrodes={nel}", f"feature={feature}")
+    if 'strength' not in skw:
+        rec.cls('default_strength_omitted')
+    if deflen:
+        rec.cls('default_length_omitted')
+    if form == 'raw_pair' and defaults:
+        rec.cls('raw_pair_as_nested_list')
+    if spec.get('revisit') and nel >= 3:
+        rv = np.round(pts, 9)
+        if any(np.all(rv[i] == rv[k]) for i in range(2, nel)
+               for k in range(i-1)):
+            rec.cls('revisits_an_electrode')
+    if do_rev:
+        rec.cls('reversal_checked')
+    if closed:
+        rec.cls('closed_wire')
+    if there_back:
+        rec.cls('there_and_back')
     res = [residency(p, nodes) for p in pts]
     for c in sorted(set(r[0] for r in res)):
         rec.cls('electrode_on=' + ['interior', 'face', 'edge', 'node'][c])
@@ -894,7 +1019,8 @@ def case_wire(spec, rec):
         rec.cls('short_dipole_vs_coordinates')
     if ncell >= 2 or any(r[0] for r in res):
         rec.nt([spec['grid']['n'], spec['grid']['seed'], spec['electrodes'],
-                spec['plant'], form])
+                spec['plant'], form] + ([spec['revisit']]
+                                        if spec.get('revisit') else []))
     rec.note({'shape': list(grid.shape_cells), 'electrodes': nel,
               'form': form, 'feature': feature, 'cells_touched': ncell,
               'length': L})
@@ -1046,25 +1172,43 @@ def case_convert(spec, rec):
     elc = ('+90' if el == 90 else '-90' if el == -90 else
            'neg' if el < 0 else 'zero' if el == 0 else 'pos')
 
+    deg = bool(spec.get('deg', True))
+    container = spec.get('container', 'ndarray')
+
+    def ang(x):             # checker degrees -> unit of the call
+        return float(x) if deg else math.radians(float(x))
+
+    def todeg(x):           # unit of the call -> degrees
+        return float(x) if deg else math.degrees(float(x))
+
+    def mk(x, y, z, a, e):  # `point` argument in the drawn container
+        v = [float(x), float(y), float(z), float(a), float(e)]
+        return (np.array(v) if container == 'ndarray' else
+                tuple(v) if container == 'tuple' else v)
+
+    dkw = {} if deg else {'deg': False}
+
     # (a) point form -> electrodes, against the closed formula
-    coo = np.array([c[0], c[1], c[2], az, el])
-    P = np.asarray(E.point_to_dipole(coo, L))
+    coo = mk(c[0], c[1], c[2], ang(az), ang(el))
+    P = np.asarray(E.point_to_dipole(coo, L, **dkw))
     ref = np.array([c - 0.5*L*u, c + 0.5*L*u])
     if P.shape != (2, 3) or np.max(np.abs(P - ref)) > tol(L):
-        raise Violation(f"point_to_dipole_mismatch:el={elc}",
-                        f"point_to_dipole({coo.tolist()}, {L}) = "
+        raise Violation(f"point_to_dipole_mismatch:el={elc}"
+                        + ("" if deg else ":radians"),
+                        f"point_to_dipole({list(coo)}, {L}, deg={deg}) = "
                         f"{P.tolist()} vs {ref.tolist()}")
 
     # (b) ... and back: same electrodes
-    az2, el2, L2 = E.dipole_to_point(P)
+    az2, el2, L2 = E.dipole_to_point(P, **dkw)
     c2 = P.mean(axis=0)
     P2 = np.asarray(E.point_to_dipole(
-        np.array([c2[0], c2[1], c2[2], az2, el2]), L2))
+        mk(c2[0], c2[1], c2[2], az2, el2), L2, **dkw))
     # conditioning: P carries an absolute error ~eps*cm, which enters the
     # direction with 1/L and comes back multiplied by L.
     if np.max(np.abs(P2 - P)) > tol(L):
         raise Violation(
-            f"roundtrip_point_dipole_point:el={elc}",
+            f"roundtrip_point_dipole_point:el={elc}"
+            + ("" if deg else ":radians"),
             f"(az, el, L)=({az}, {el}, {L}) -> electrodes {P.tolist()} -> "
             f"({az2}, {el2}, {L2}) -> electrodes {P2.tolist()}")
 
@@ -1080,19 +1224,20 @@ def case_convert(spec, rec):
     e1 = c + d
     D = np.array([e0, e1])
     dl = float(np.linalg.norm(e1 - e0))
-    az3, el3, L3 = E.dipole_to_point(D)
+    az3, el3, L3 = E.dipole_to_point(D, **dkw)
     az_r, el_r, L_r = angles_of(e1 - e0)
     if abs(L3 - L_r) > 1e-12*L_r:
         raise Violation("dipole_to_point:length", f"{L3!r} vs {L_r!r}")
-    u3 = unit_vector(float(az3), float(el3))
+    u3 = unit_vector(todeg(az3), todeg(el3))
     if np.max(np.abs(u3*L3 - (e1 - e0))) > 1e-9*dl:
         raise Violation(
-            "dipole_to_point:direction",
-            f"dipole_to_point({D.tolist()}) = ({az3}, {el3}, {L3}) does not "
-            f"point along {(e1-e0).tolist()}")
+            "dipole_to_point:direction" + ("" if deg else ":radians"),
+            f"dipole_to_point({D.tolist()}, deg={deg}) = ({az3}, {el3}, "
+            f"{L3}) does not point along {(e1-e0).tolist()}")
     cc = 0.5*(e0 + e1)
     D2 = np.asarray(E.point_to_dipole(
-        np.array([cc[0], cc[1], cc[2], az3, el3]), L3))
+        mk(cc[0], cc[1], cc[2], az3, el3), L3, **dkw))
+    az3, el3 = todeg(az3), todeg(el3)      # the classes take degrees
     t = 1e-9*dl + 16*EPS*(float(np.max(np.abs(D))) + dl)
     if np.max(np.abs(D2 - D)) > t:
         raise Violation(
@@ -1115,7 +1260,10 @@ def case_convert(spec, rec):
                 {'electrodes': D.tolist()})
         raise
     s3 = emg3d.TxElectricDipole((cc[0], cc[1], cc[2], az3, el3), length=L3)
-    if np.any(s1.points != D) or np.any(s2.points != D):
+    # "same electrodes": to the documented 1e-9 m, not bit-wise
+    if (s1.points.shape != D.shape or s2.points.shape != D.shape or
+            max(np.max(np.abs(s1.points - D)),
+                np.max(np.abs(s2.points - D))) > 1e-9):
         raise Violation("format_points_mismatch:pair_flat",
                         f"{s1.points.tolist()} / {s2.points.tolist()} vs "
                         f"{D.tolist()}")
@@ -1137,6 +1285,8 @@ def case_convert(spec, rec):
 
     nzc = int(np.count_nonzero(d))
     rec.cls(f"el={elc}", f"components={nzc}",
+            'angles_in=' + ('degrees' if deg else 'radians'),
+            f"point_as={container}",
             'az=' + ('180' if az == 180 else 'neg' if az < 0 else
                      'zero' if az == 0 else 'pos'),
             'coords=' + ('0' if cm == 0 else '<=1e2' if cm <= 1e2 else
@@ -1227,6 +1377,15 @@ def case_magnetic(spec, rec):
             f"loop:vector_area:{fmt}",
             f"vector area {area_vec.tolist()} (|.|={np.linalg.norm(area_vec)!r}"
             f") vs length*direction {(L*u).tolist()} (length {L!r})")
+    if fmt == 'point5':
+        from emg3d import electrodes as E
+        Pd = np.asarray(E.point_to_square_loop(
+            (float(c[0]), float(c[1]), float(c[2]), az, el), L))
+        if Pd.shape != (5, 3) or np.max(np.abs(Pd - P)) > 1e-9 + 16*EPS*M:
+            raise Violation(
+                "loop:point_to_square_loop_differs_from_class",
+                f"point_to_square_loop(tuple, {L!r}) = {Pd.tolist()} vs "
+                f"TxMagneticDipole.points {P.tolist()}")
     if fmt != 'point5':
         if np.any(np.asarray(src.coordinates, float).ravel() !=
                   np.asarray(arg, float).ravel()):
@@ -1363,7 +1522,16 @@ def case_magpoint(spec, rec):
 # ===================================================================== #
 #                 reuse: one source object, many requests               #
 # ===================================================================== #
-REUSE_KINDS = ['dipole', 'dipole5', 'wire', 'point', 'magdipole', 'magpoint']
+REUSE_KINDS = ['dipole', 'dipole5', 'wire', 'point', 'magdipole', 'magpoint',
+               'magdipole_pair']
+# How request k gets its field: from the object itself (function / method)
+# or from a copy made at that moment (documented copy(), to_dict/from_dict,
+# pickle as used for worker processes); with 'adopt' the copy replaces the
+# object for the later requests.  Before the request one lazily cached
+# attribute may be read.
+REUSE_VIA = ['function', 'method', 'function', 'method', 'copy', 'dict',
+             'pickle']
+REUSE_TOUCH = ['none', 'none', 'repr', 'length', 'azimuth', 'center']
 
 
 @st.composite
@@ -1391,7 +1559,9 @@ def reuse_strategy(draw):
         reqs.append({'freq': fr,
                      'grid': draw(st.sampled_from(['same', 'same', 'equal',
                                                    'other'])),
-                     'via': draw(st.sampled_from(['function', 'method']))})
+                     'via': draw(st.sampled_from(REUSE_VIA)),
+                     'touch': draw(st.sampled_from(REUSE_TOUCH)),
+                     'adopt': draw(st.booleans())})
     spec['requests'] = reqs
     return spec
 
@@ -1419,11 +1589,19 @@ def _reuse_source(emg3d, spec, nodes, strength):
         return emg3d.TxElectricWire(pts.copy(), strength=strength)
     if kind == 'point':
         return emg3d.TxElectricPoint(coo5, strength=strength)
-    if kind == 'magdipole':
+    if kind in ('magdipole', 'magdipole_pair'):
         # square loop of area = length: keep its half diagonal inside
+        # (half diagonal = sqrt(length/2) <= 0.142 ext; centre >= 0.15 ext
+        # from the boundary)
+        length = min(spec['lfrac']*ext, (0.2*ext)**2)
+        if kind == 'magdipole':
+            return emg3d.TxMagneticDipole(coo5, strength=strength,
+                                          length=length)
+        # the same dipole given by its two end points
+        uu = unit_vector(spec['az'], spec['el'])
         return emg3d.TxMagneticDipole(
-            coo5, strength=strength,
-            length=min(spec['lfrac']*ext, (0.2*ext)**2))
+            np.array([pts[0] - 0.5*length*uu, pts[0] + 0.5*length*uu]),
+            strength=strength)
     return emg3d.TxMagneticPoint(coo5, strength=strength)
 
 
@@ -1441,6 +1619,7 @@ def case_reuse(spec, rec):
     src = _reuse_source(emg3d, spec, nodes, strength)
     electric = spec['kind'] in ('dipole', 'dipole5', 'wire', 'point')
     kept = []
+    vias, touches = set(), set()
     for k, rq in enumerate(spec['requests']):
         if rq['grid'] == 'other':
             g, gn = build_grid(ospec)
@@ -1457,10 +1636,35 @@ def case_reuse(spec, rec):
         else:
             g = grid
         freq = freq_arg(rq['freq'])
-        if rq['via'] == 'method':
+        touch = rq.get('touch', 'none')
+        if touch == 'azimuth' and not hasattr(src, 'azimuth'):
+            touch = 'none'
+        if touch == 'repr':
+            repr(src)
+        elif touch == 'length':
+            src.length
+        elif touch == 'azimuth':
+            src.azimuth, src.elevation
+        elif touch == 'center':
+            src.center
+        via = rq['via']
+        if via in ('copy', 'dict', 'pickle'):
+            if via == 'copy':
+                cp = src.copy()
+            elif via == 'dict':
+                cp = type(src).from_dict(src.to_dict())
+            else:
+                import pickle
+                cp = pickle.loads(pickle.dumps(src))
+            got = emg3d.get_source_field(g, cp, freq)
+            if rq.get('adopt', False):
+                src = cp
+        elif via == 'method':
             got = src.get_field(g, freq)
         else:
             got = emg3d.get_source_field(g, src, freq)
+        vias.add(via)
+        touches.add(touch)
         # fresh objects: same arguments, new source, new grid
         fg = emg3d.TensorMesh([h.copy() for h in g.h],
                               origin=np.array(g.origin, float))
@@ -1470,6 +1674,9 @@ def case_reuse(spec, rec):
         ref = emg3d.get_source_field(fg, fsrc, freq)
         tag = (f"{spec['kind']}:req{min(k, 2)}:{rq['freq']['mode']}:"
                f"{rq['grid']}")
+        if via in ('copy', 'dict', 'pickle'):
+            tag += f":{via}"
+
         a, b = np.asarray(got.field), np.asarray(ref.field)
         if a.dtype != b.dtype or a.shape != b.shape:
             raise Violation(f"reuse:dtype_or_shape:{tag}",
@@ -1481,7 +1688,7 @@ def case_reuse(spec, rec):
                 f"request {k} ({rq}) on a re-used {type(src).__name__}: "
                 f"max |diff| {float(np.max(np.abs(a-b))):.3e} vs max "
                 f"|field| {sc:.3e}; history "
-                f"{[(r['freq']['mode'], r['grid'], r['via']) for r in spec['requests'][:k+1]]}")
+                f"{[(r['freq']['mode'], r['grid'], r['via'], r.get('touch', 'none'), r.get('adopt', False)) for r in spec['requests'][:k+1]]}")
         if got.frequency != ref.frequency or got.sval != ref.sval:
             raise Violation(f"reuse:field_frequency:{tag}",
                             f"{got.frequency!r}/{got.sval!r} vs "
@@ -1508,7 +1715,12 @@ def case_reuse(spec, rec):
             f"strength={strength_kind(spec)}",
             *[f"mode={m}" for m in sorted(set(modes))],
             *[f"grid={g}" for g in sorted({r['grid']
-                                           for r in spec['requests']})])
+                                           for r in spec['requests']})],
+            *[f"via={v}" for v in sorted(vias)],
+            *[f"touch={t}" for t in sorted(touches)])
+    if any(r.get('adopt') and r['via'] in ('copy', 'dict', 'pickle')
+           for r in spec['requests'][:-1]):
+        rec.cls('copy_adopted_for_later_requests')
     if any(m != 'freq' for m in modes[:-1]):
         rec.cls('real_valued_request_before_last')
     if len(set(modes)) > 1 or len({r['freq']['f']
